@@ -319,8 +319,14 @@ func (sc *scenario) emitBody(a *h.Asm, n *node, blobs *[]blob) {
 	case tInvalid:
 		a.Op(h.INVALID)
 	case tOOG:
-		l := a.NewLabel() + fmt.Sprint(n.ID)
-		a.Label(l).Jump(l)
+		if n.GasReq != 0 && n.GasReq <= 60000 && n.ID%2 == 0 {
+			// genuine gas exhaustion by looping (bounded: the frame has little gas)
+			l := a.NewLabel() + fmt.Sprint(n.ID)
+			a.Label(l).Jump(l)
+		} else {
+			// out of gas through memory expansion (one step instead of 10^5 loop iterations)
+			a.PushU(0x40000000).Op(h.MLOAD)
+		}
 	case tSelfdestruct:
 		a.PushAddr(h.EOARich).Op(h.SELFDESTRUCT)
 	case tReturnCode:
